@@ -35,6 +35,9 @@ fn main() {
         find: registry::find,
         simulated_time: "no clock exists in the storage/database layer; progress is counted in simulated file-system calls (counters fs.*)",
         alloc_cap: 96 << 20,
+        // C07 trials are millisecond-scale and may spin without any storage call on damaged data:
+        // a short silence window keeps such observations cheap
+        hang_s: |id| if id == "C07" { 4 } else { 30 },
     };
     std::process::exit(simcore::harness::main_dispatch(&eng));
 }
